@@ -417,6 +417,15 @@ pub fn c33(base: &Case, rng: &mut Rng, thorough: bool) -> Vec<Mutant> {
         }
         // collateral return with hostile values (Babbage / Conway)
         if matches!(base.era.as_str(), "babbage" | "conway") {
+            // a collateral return worth more than the collateral inputs
+            for legacy in [true, false] {
+                let mut c = base.clone();
+                let addr = c.out_addr_mut(0).cloned().unwrap_or(Cb::bytes(&[0x61; 29]));
+                let ret = if legacy { Cb::array(vec![addr, Cb::uint(MAX)]) } else { Cb::map(vec![(Cb::uint(0), addr), (Cb::uint(1), Cb::uint(MAX))]) };
+                c.body_mut().set(16, ret);
+                c.resign();
+                out.push(m(&format!("collateral-return/coin-max{}", if legacy { "-legacy" } else { "" }), c));
+            }
             for (legacy, q, label) in [(true, 0u64, "legacy-asset-0"), (false, 0, "asset-0"), (true, MAX, "legacy-asset-max")] {
                 let mut c = base.clone();
                 let addr = c.out_addr_mut(0).cloned().unwrap_or(Cb::bytes(&[0x61; 29]));
